@@ -261,6 +261,17 @@ def r8(ctx):
     ctx.ob("remove_move effect", ok, "remove_move does not subtract chess_move.dest from the entry whose src equals chess_move.source", site=body.get("def_span"))
 
 
+@rule("C10.W", "type-level: compile-fail witnesses with compiling twins (K6; thorough tier)")
+def rw(ctx):
+    from analysis import witness
+    if ctx.config != "ws":
+        return
+    witness.check(ctx, {'c10_movegen_cursor_private': "the generator's cursor can be moved from outside"})
+
+
+rw.thorough_only = True
+
+
 def _size_hint(P):
     key = f"<{MG} as core::iter::traits::iterator::Iterator>::size_hint"
     b = P.own("fns", key)
